@@ -22,7 +22,8 @@
 //	  m<r>.<c>.<sig>   a Byzantine message reaches the submitter: r=1 this RequestId, 0 another;
 //	                   c = content index | n (nil Content); sig = V<i>.<c> valid share of member i on content c |
 //	                   T<i>.<c> the same share with one trailing byte | E empty | S1 one byte | N nil |
-//	                   J<i> index i + 64 junk bytes | G<i> share of a foreign group's member i on the message's content
+//	                   J<i> index i + 64 junk bytes | G<i> share of a foreign group's member i on the message's content |
+//	                   R<v>.<s> member s's valid share on content 0 relabelled with member v's index
 //	                   optional suffix ~<t> : Index field t instead of the request's type
 //	  x<k>:<item>      the same, delivered to honest member k instead of the submitter
 //
@@ -42,6 +43,7 @@ import (
 	"strconv"
 	"strings"
 	"sync"
+	"sync/atomic"
 	"time"
 
 	"github.com/DOSNetwork/core/dosnode"
@@ -342,6 +344,16 @@ func (w *world) sigBytes(tok string, msgContent int) []byte {
 			panic(err)
 		}
 		return s
+	case tok[0] == 'R':
+		p := strings.Split(tok[1:], ".")
+		v, src := h.Atoi(p[0]), h.Atoi(p[1])
+		s, err := tbls.Sign(suite, w.g.shares[src], w.contents[0])
+		if err != nil {
+			panic(err)
+		}
+		s = append([]byte(nil), s...)
+		s[0], s[1] = byte(v>>8), byte(v)
+		return s
 	case tok[0] == 'V' || tok[0] == 'T':
 		p := strings.Split(tok[1:], ".")
 		i, c := h.Atoi(p[0]), h.Atoi(p[1])
@@ -432,8 +444,8 @@ func run(k *kase) (impl, oracle, class string) {
 	for _, nd := range senders {
 		select {
 		case <-nd.done:
-		case <-time.After(30 * time.Second):
-			return "stuck non-submitter", "stuck: a non-submitter's pipeline did not return", "stuck"
+		case <-time.After(15 * time.Second):
+			return "stuck non-submitter", "stuck-non-submitter: the pipeline of a member that is not the derived submitter did not return (it waits for shares as if it were the submitter)", "stuck"
 		}
 		sent := nd.p.Sent()
 		if len(sent) == 1 {
@@ -452,7 +464,7 @@ func run(k *kase) (impl, oracle, class string) {
 	started := false
 	toStage := 0 // messages that will reach the submitter's recovery stage besides its own
 	deliver := func(nd *node, m *vss.Signature) bool {
-		return nd.p.DeliverTimeout([]byte("peer"), m, 30*time.Second)
+		return nd.p.DeliverTimeout([]byte("peer"), m, 15*time.Second)
 	}
 	for _, it := range k.sched {
 		target := sn
@@ -471,7 +483,7 @@ func run(k *kase) (impl, oracle, class string) {
 				continue
 			}
 			if !deliver(target, proto.Clone(m).(*vss.Signature)) {
-				return "stuck deliver", "stuck: the node's queryLoop did not take a peer message for 30 s", "stuck"
+				return "stuck deliver", "stuck: the node's queryLoop did not take a peer message for 15 s", "stuck"
 			}
 			if it.to < 0 {
 				toStage++
@@ -481,7 +493,7 @@ func run(k *kase) (impl, oracle, class string) {
 				continue
 			}
 			if !deliver(target, w.message(it)) {
-				return "stuck deliver", "stuck: the node's queryLoop did not take a peer message for 30 s", "stuck"
+				return "stuck deliver", "stuck: the node's queryLoop did not take a peer message for 15 s", "stuck"
 			}
 			if it.to < 0 && it.ridOK {
 				toStage++
@@ -496,7 +508,7 @@ func run(k *kase) (impl, oracle, class string) {
 			go deliver(sn, sentinel)
 		}
 		// own share + deliveries + sentinel; the sentinel is received only after the previous message was processed
-		if !sn.lg.WaitCount(stageEvent, 1+toStage+1, reported, 60*time.Second) && !reported() {
+		if !sn.lg.WaitCount(stageEvent, 1+toStage+1, reported, 10*time.Second) && !reported() {
 			return "stuck stage", "stuck: the submitter's recovery stage neither reported nor consumed its inputs", "stuck"
 		}
 		if reported() {
@@ -720,9 +732,22 @@ func risky(k *kase) bool {
 	return false
 }
 
+// stuckCases counts cases in which a pipeline or loop stopped making progress (each costs up to
+// 30 s and leaks goroutines): after three of them the remaining cases are not run.
+var stuckCases int32
+
 func exec(line string) (res h.Result) {
 	k := parse(line)
 	res.Nontrivial = true
+	if atomic.LoadInt32(&stuckCases) >= 3 {
+		res.Impl, res.Class = "not-run", "not-run"
+		return
+	}
+	defer func() {
+		if strings.HasPrefix(res.Impl, "stuck") {
+			atomic.AddInt32(&stuckCases, 1)
+		}
+	}()
 	if risky(k) && os.Getenv("VERIF_C01_CHILD") == "" {
 		// two encodings of one share can crash tbls.Recover in the stage goroutine (F1): observe from outside
 		cmd := osexec.Command(os.Args[0], "exec", "C01")
